@@ -417,6 +417,8 @@ impl Inject for ConfigActor {
         self.raft = raft.map(|e| Arc::downgrade(&e));
         self.namespace_actor = factory_data.get_actor();
         self.tenant_index.namespace_actor = self.namespace_actor.clone();
+        //the start-up replay runs in another actor and may have delivered configs before this injection
+        self.tenant_index.announce_all_tenants();
         if let Some(conn_manage) = factory_data.get_actor() {
             self.subscriber.set_conn_manage(conn_manage);
         }
